@@ -458,6 +458,7 @@ class Exec:
         self.blog = []
         self.sweeps = 0
         self.tcov_now = None
+        self.cov_dirty = False        # cache file written under another time_coverage
         self.atexit_save = False
         self.atexit = _Atexit()
         self.V = []
@@ -520,7 +521,20 @@ class Exec:
             return ("invalid", self.last_corruption or "malformed")
         return ("valid", entries)
 
+    def _discard_foreign_cache(self):
+        """The cache file does not record the time_coverage its entries were
+        computed with.  A user who changed the coverage has to throw the old
+        file away (a FileSet cannot know); the harness does the same, so that
+        `find() with == without cache` is only demanded of entries made under
+        the present configuration."""
+        if self.cov_dirty:
+            if os.path.isfile(self.cache):
+                os.remove(self.cache)
+                self.probe("cache_discarded_after_coverage_change")
+            self.cov_dirty = False
+
     def _construct(self):
+        self._discard_foreign_cache()
         state = self._file_state()
         with warnings.catch_warnings(record=True) as wl:
             warnings.simplefilter("always")
@@ -602,6 +616,7 @@ class Exec:
         before = None if branch or self.mode == "none" else self._dir_state()
         old = (self.saved_bytes, self.saved_snap, self.last_corruption,
                self.disk.unreadable)
+        cov_dirty_before = self.cov_dirty
         self.disk.begin_save()
         try:
             if via_atexit:
@@ -626,6 +641,7 @@ class Exec:
             self.saved_bytes = f.read()
         self.saved_snap = snap
         self.save_docs.append((self.saved_bytes, snap))
+        self.cov_dirty = False        # the file now holds this coverage's entries
         if before is None:
             return
         # ---- crash enumeration for this save (branches off the main line) ----
@@ -656,6 +672,7 @@ class Exec:
         fsmod = _T["fsmod"]
         for k, tv in plan:
             self._restore_dir(before)
+            self.cov_dirty = cov_dirty_before
             bdisk = SimDisk(self.disk.cache_path)
             bdisk.unreadable = old[3]
             bdisk.bufsize = self.w["bufsize"]
@@ -724,6 +741,7 @@ class Exec:
             self.blog.append(f"{s}.{k}.{tv}:" + digest_of(bdisk.log))
             (self.fs, self.atexit, self.disk, self.saved_bytes, self.saved_snap,
              self.V, nt, self.save_docs) = main
+            self.cov_dirty = False
             self.nontrivial = nt or self.nontrivial
             main = (self.fs, self.atexit, self.disk, self.saved_bytes,
                     self.saved_snap, self.V, self.nontrivial, self.save_docs)
@@ -749,6 +767,7 @@ class Exec:
             self.atexit.handlers = []
             self.fs = self._construct()
         elif kind == "load":
+            self._discard_foreign_cache()
             state = self._file_state()
             before = _snapshot(fs)
             with warnings.catch_warnings(record=True) as wl:
@@ -772,6 +791,7 @@ class Exec:
                 self.tcov_now = ["1 hour", "10 minutes", None][o.get("tcov", 0) % 3] \
                     if self.tcov_now is None else None
                 fs.time_coverage = self.tcov_now
+                self.cov_dirty = True
                 if fs.info_cache:
                     self.V.append(_viol("C15/coverage-reset",
                                         "info cache not reset by time_coverage"))
